@@ -121,6 +121,15 @@ class ExtMixin(object):
             c = v.const()
             if c is not None:
                 return Num(ep.const(int(c)))
+            rng = self.affine_range(v.rf)
+            if rng is not None:
+                import math as _m
+                lo, hi = rng                 # open interval
+                if lo >= 0 and _m.floor(lo) == _m.ceil(hi) - 1:
+                    return Num(ep.const(_m.floor(lo)))
+                if hi <= 0 and _m.ceil(hi) == _m.floor(lo) + 1:
+                    return Num(ep.const(_m.ceil(hi)))
+                self.err(node, "int() of %r: its value over the declared interval is not one whole number" % (v,))
             if not v.inexact:
                 return v
             return Num(ep.app("int", [v.rf]))
@@ -1783,6 +1792,25 @@ class _CsvWriter(object):
                 raise AnalysisError("csv field %r needs quoting" % (it.v,))
         s = I.join(Const(","), args[0], None)
         I.write_to(self.f, I.str_concat(s, Const(self.lt)) if hasattr(I, "str_concat") else StrV(SCat([to_node(s), SLit(self.lt)])), None)
+        return NONE
+
+
+    def m_writerows(self, I, args, kwargs):
+        """writerows(rows) is `for row in rows: writerow(row)` - rows are taken (and a lazy producer runs) one at a time"""
+        if kwargs or len(args) != 1:
+            raise AnalysisError("csv writerows arguments")
+        from .symeval import Env
+        from .symeval_ops import PyObjV
+        w = self
+
+        class _Each(object):
+            def m___call__(self, J, a, k):
+                return w.m_writerow(J, a, k)
+        loop = ast.parse("for _row in _rows:\n    _each(_row)\n").body[0]
+        env = Env(label="csv.writerows")
+        env.vars["_rows"] = args[0]
+        env.vars["_each"] = PyObjV(_Each())
+        I.exec_stmt(loop, env)
         return NONE
 
 
